@@ -6,6 +6,8 @@
            verdict = match | count | shape:i | value:i | nonfloat:i | unspecified:i
    {"op":"cast","src":"f64","dst":"f32","v":[scalar|[re,im]..]}
         -> space separated results: re,im each  n/d | nan | inf | -inf ; "none" for undefined
+   {"op":"promote","a":"f32","b":"i64"}
+        -> "<can_cast(a -> b, safe)> <result_type(a, b)>"        e.g. "false f64"
    {"op":"x64","flag":bool,"prog":P}
         P = {"t":"skip"|"raise"} | {"t":"set","b":bool} | {"t":"seq","a":P,"b":P}
           | {"t":"tmp"|"force","en":bool,"body":P} | {"t":"catch","body":P}
@@ -52,6 +54,16 @@ def parseKind (s : String) : Option Kind :=
   | "f16" => some (.flt f16) | "f32" => some (.flt f32) | "f64" => some (.flt f64)
   | "c64" => some (.cplx f32) | "c128" => some (.cplx f64)
   | _ => none
+
+def showKind (k : Kind) : String :=
+  if k = .bool then "bool"
+  else if k = .int true 8 then "i8" else if k = .int true 16 then "i16"
+  else if k = .int true 32 then "i32" else if k = .int true 64 then "i64"
+  else if k = .int false 8 then "u8" else if k = .int false 16 then "u16"
+  else if k = .int false 32 then "u32" else if k = .int false 64 then "u64"
+  else if k = .flt f16 then "f16" else if k = .flt f32 then "f32" else if k = .flt f64 then "f64"
+  else if k = .cplx f32 then "c64" else if k = .cplx f64 then "c128"
+  else "other"
 
 def optAll {α β} (f : α → Option β) : List α → Option (List β)
   | [] => some []
@@ -130,6 +142,11 @@ def stepCast (j : Json) : Option String := do
     | some y => s!"{showSc y.re},{showSc y.im}"
   pure (" ".intercalate outs)
 
+def stepPromote (j : Json) : Option String := do
+  let a ← parseKind (← (j.getObjValAs? String "a").toOption)
+  let b ← parseKind (← (j.getObjValAs? String "b").toOption)
+  pure s!"{canCastSafe a b} {showKind (resultKind a b)}"
+
 def stepX64 (j : Json) : Option String := do
   let f ← (j.getObjValAs? Bool "flag").toOption
   let p ← parseXP (← (j.getObjVal? "prog").toOption)
@@ -144,6 +161,7 @@ def step (line : String) : String :=
     | some "cmp" => (stepCmp j).getD "bad-op"
     | some "cast" => (stepCast j).getD "bad-op"
     | some "x64" => (stepX64 j).getD "bad-op"
+    | some "promote" => (stepPromote j).getD "bad-op"
     | _ => "bad-op"
 
 partial def loop (h : IO.FS.Stream) : IO Unit := do
